@@ -30,38 +30,40 @@ def msgUnexpectedAssignment := "Unexpected assignment on SP"
 /-- the offset the pass subtracts: `journaled_sp - (journaled_sp & bitmask)` -/
 def alignOffset (journaled mask : BitVec 64) : BitVec 64 := journaled - (journaled &&& mask)
 
-/-- `substitute`: the new expression and the log messages. Repaired code: the variable has to be the
-stack pointer (otherwise the operands "are not register and constant"), and a bitmask other than the
-expected alignment is reported but not substituted. A non-empty log means "not substituted". -/
+/-- the pattern `(Var(sp), Const(c)) | (Const(c), Var(sp))` with `sp` the stack pointer: the constant -/
+def spConstPair (sp : Variable) (l r : Expression) : Option (Nat × Nat) :=
+  match l, r with
+  | .Var v, .Const b x => if v = sp then some (b, x) else none
+  | .Const b x, .Var v => if v = sp then some (b, x) else none
+  | _, _ => none
+
+/-- `substitute`: the new expression, the log messages and the new journaled offset. Repaired code: the
+variable has to be the stack pointer (otherwise the operands "are not register and constant"), a bitmask
+other than the expected alignment is reported but not substituted, and after a substitution the journaled
+offset is the aligned one. A non-empty log means "not substituted". -/
 def substituteAnd (sp : Variable) (exp : Expression) (expectedAlignment : BitVec 64) (journaled : BitVec 64) :
-    Expression × List String :=
+    Expression × List String × BitVec 64 :=
   match exp with
   | .BinOp op l r =>
-    let pair : Option (Variable × Nat × Nat) := match l, r with
-      | .Var v, .Const b x => if v = sp then some (v, b, x) else none
-      | .Const b x, .Var v => if v = sp then some (v, b, x) else none
-      | _, _ => none
-    match pair with
-    | some (v, b, x) =>
+    match spConstPair sp l r with
+    | some (b, x) =>
       if op = .IntAnd then
-        if negConstToI64 b x ≠ expectedAlignment then (exp, [msgUnexpectedAlignment])
+        if negConstToI64 b x ≠ expectedAlignment then (exp, [msgUnexpectedAlignment], journaled)
         else
-          let offset := alignOffset journaled (constToI64 b x)
-          (.BinOp .IntSub (.Var v) (.Const b (i64ToConst b offset)), [])
-      else (exp, [msgUnsubstitutable])
-    | none => (exp, [msgUnsubstitutableOperands])
-  | _ => (exp, [msgUnsubstitutable])
+          (.BinOp .IntSub (.Var sp) (.Const b (i64ToConst b (alignOffset journaled (constToI64 b x)))), [],
+            journaled - alignOffset journaled (constToI64 b x))
+      else (exp, [msgUnsubstitutable], journaled)
+    | none => (exp, [msgUnsubstitutableOperands], journaled)
+  | _ => (exp, [msgUnsubstitutable], journaled)
 
-/-- `journal_sp_value`; `none` = `Err` -/
+/-- `journal_sp_value`; `none` = `Err`. Repaired code: `c - SP` is not `SP - c`. -/
 def journalSpValue (journaled : BitVec 64) (isPlus : Bool) (l r : Expression) (sp : Variable) : Option (BitVec 64) :=
-  let pair : Option (Variable × Nat × Nat) := match l, r with
-    | .Var v, .Const b x => some (v, b, x)
-    | .Const b x, .Var v => if isPlus then some (v, b, x) else none   -- repaired: `c - SP` is not `SP - c`
-    | _, _ => none
-  match pair with
-  | some (v, b, x) =>
+  match l, r with
+  | .Var v, .Const b x =>
     if v = sp then some (if isPlus then journaled + constToI64 b x else journaled - constToI64 b x) else none
-  | none => none
+  | .Const b x, .Var v =>
+    if isPlus ∧ v = sp then some (journaled + constToI64 b x) else none
+  | _, _ => none
 
 /-- `get_first_branch_tid` -/
 def firstBranchTid (b : Term Blk) : Option Tid :=
@@ -128,8 +130,8 @@ def saStepDef (sp : Variable) (expectedAlignment : BitVec 64) (acc : SaAcc) (d :
         | some j => { acc with journaled := j, defs := d :: acc.defs }
         | none => { acc with stop := true, defs := d :: acc.defs }
       | .BinOp _ _ _ =>
-        let (e', msgs) := substituteAnd sp value expectedAlignment acc.journaled
-        { acc with logs := acc.logs ++ msgs, stop := !msgs.isEmpty,
+        let (e', msgs, j') := substituteAnd sp value expectedAlignment acc.journaled
+        { acc with journaled := j', logs := acc.logs ++ msgs, stop := !msgs.isEmpty,
                    defs := { d with term := .Assign v e' } :: acc.defs }
       | _ => { acc with logs := acc.logs ++ [msgUnexpectedAssignment], stop := true, defs := d :: acc.defs }
     else { acc with defs := d :: acc.defs }
